@@ -38,6 +38,7 @@ def case_strategy(draw):
         "pred": gen.compact(pred).tolist(),
         "ref": gen.compact(ref).tolist(),
         "dtype": draw(st.sampled_from(["uint8", "uint16", "uint32"])),
+        "layout": draw(st.sampled_from(["C", "C", "C", "F", "neg", "T"])),
         "metric": metric,
         "thr": draw(gen.threshold(metric)),
     }
@@ -81,8 +82,8 @@ def searches(tier):
 def check(case, stats):
     from panoptica.utils.processing_pair import UnmatchedInstancePair
 
-    pred = np.array(case["pred"]).astype(case["dtype"])
-    ref = np.array(case["ref"]).astype(case["dtype"])
+    pred = gen.with_layout(np.array(case["pred"]).astype(case["dtype"]), case.get("layout", "C"))
+    ref = gen.with_layout(np.array(case["ref"]).astype(case["dtype"]), case.get("layout", "C"))
     if not pred.any() or not ref.any():
         stats.count("skipped:empty_side")
         return
